@@ -189,7 +189,14 @@ pub fn exec(sc: &Scenario) -> Outcome {
             }
             Step::Turns { n } => { for _ in 0..*n { h.turn(); turn_no += 1; reconcile(&mut h, &mut cl, turn_no, &mut group, &mut mismatch); } }
             Step::Arm { fop, conn, nth, action, .. } => { if let Some(s) = conn.and_then(|c| cl.get(&c)) { if s.closed_at.is_none() { let (inst, sim) = (h.inst, s.sim); h.sim.arm(inst, *fop, Some(sim), None, *nth, *action); h.count("syscall_faults_armed", 1); } } }
-            Step::Close { c, .. } => { h.turn(); turn_no += 1; reconcile(&mut h, &mut cl, turn_no, &mut group, &mut mismatch); if let Some(s) = cl.get_mut(c) { s.closed_at = Some(turn_no); let sim = s.sim; h.sim.close(sim, CloseHow::Close); h.count("probe_subscriber_disconnected", 1); } }
+            Step::Close { c, .. } => {
+                h.turn(); turn_no += 1; reconcile(&mut h, &mut cl, turn_no, &mut group, &mut mismatch);
+                // what the client sent before closing is still carried out by a server that reads it only later (reads that
+                // were interrupted or came back empty): let it be read first, and leave no such outcome armed on this socket
+                if let Some(s) = cl.get(c) { let sim = s.sim; h.sim.disarm_conn(sim); }
+                for _ in 0..12 { if mismatch || cl.get(c).map_or(true, |s| s.inflight.is_empty()) { break; } h.turn(); turn_no += 1; reconcile(&mut h, &mut cl, turn_no, &mut group, &mut mismatch); }
+                if let Some(s) = cl.get_mut(c) { s.closed_at = Some(turn_no); let sim = s.sim; h.sim.close(sim, CloseHow::Close); h.count("probe_subscriber_disconnected", 1); }
+            }
             _ => {}
         }
     }
